@@ -1,8 +1,8 @@
 SPECIFICATION Spec
 CONSTANTS
-  Params <- RecvWrapReal
-  MaxBase = 65540
-  MaxHist = 3
+  Params <- RecvDevfull
+  MaxBase = 4
+  MaxHist = 1000000
 VIEW View
 ACTION_CONSTRAINT PrintScript
 CHECK_DEADLOCK FALSE
